@@ -59,6 +59,11 @@ def main():
     info = {}
     try:
         # ---- 1. regenerate the translated part of the model from /repo
+        # (steps 1-3 run under one lock: concurrent checks against different source trees must not interleave
+        #  regeneration and compilation of coq/gen)
+        import fcntl
+        outer = open(os.path.join(common.COQ, ".lock_outer"), "w")
+        fcntl.flock(outer, fcntl.LOCK_EX)
         gen_status = None
         try:
             gen_status = translate.regenerate()
@@ -94,6 +99,8 @@ def main():
                 for f in mod.OBLIGATION_FILES:
                     if os.path.exists(os.path.join(common.COQ, f[:-2] + ".vo")):
                         discharged += len(common.count_theorems(f))
+
+        outer.close()
 
         # ---- 4. fingerprints of the anchored functions: a change escalates exploration, never alarms
         fp_now = common.fingerprints(mod.ANCHORS)
